@@ -185,6 +185,17 @@ def scenarios(P):
             'conf': {'enforce_new_defaults': False},
             'probes': [('n', ['ovr']), ('n', ['new'])],
         },
+        's16-no-overwrite-two-rules-of-one-file': {
+            # Enforcer(overwrite=False); ONE directory file changes two rules
+            # that depend on each other.  A member is allowed before (gate =
+            # member) and after (not gate, gate = admin) - never by a mix
+            'old': {'policy.yaml': {'x': '@'},
+                    'd1/o.yaml': {'get': 'rule:gate', 'gate': 'role:member'}},
+            'new': {'d1/o.yaml': {'get': 'not rule:gate',
+                                  'gate': 'role:admin'}},
+            'defaults': [], 'conf': {}, 'enforcer_kw': {'overwrite': False},
+            'probes': [('get', ['member'])],
+        },
         's5-alias-halves-swap': {
             'old': {'policy.yaml': {'a': 'rule:h1 and rule:h2',
                                     'h1': 'role:p', 'h2': 'role:q'}},
@@ -209,7 +220,8 @@ TIERS = {
                         's12-empty-main-file-rewritten',
                         's13-default-is-a-reference',
                         's14-reference-to-dir-override',
-                        's15-dir-overrides-deprecated-name'],
+                        's15-dir-overrides-deprecated-name',
+                        's16-no-overwrite-two-rules-of-one-file'],
                   bound=2, reduced=True, opcode=False,
                   probes={'s1-main-edit-dir-override': [2, 1],
                           's1b-main-edit-dir-touched': [1],
@@ -225,7 +237,8 @@ TIERS = {
                           's12-empty-main-file-rewritten': [1],
                           's13-default-is-a-reference': [1],
                           's14-reference-to-dir-override': [1],
-                          's15-dir-overrides-deprecated-name': [1, 1]}),
+                          's15-dir-overrides-deprecated-name': [1, 1],
+                          's16-no-overwrite-two-rules-of-one-file': [1]}),
     'thorough': dict(scen=None, bound=2, reduced=False, opcode=True,
                      probes=None),
 }
